@@ -30,6 +30,10 @@ struct CtlState {
     parked: HashMap<String, String>,
     release: HashSet<String>,
     waiting: HashMap<String, String>,
+    /// threads that park at EVERY point (schedule replay)
+    gate: HashSet<String>,
+    /// how often each thread has parked so far
+    parks: HashMap<String, u64>,
 }
 
 pub struct Ctl {
@@ -63,6 +67,53 @@ impl Ctl {
         st.pause
             .insert(thread.to_string(), (point.to_string(), seen + 1));
         st.release.remove(thread);
+    }
+
+    /// From now on the named threads park at every point they pass.
+    pub fn gate(&self, threads: &[&str]) {
+        let mut st = self.st.lock();
+        for t in threads {
+            st.gate.insert(t.to_string());
+        }
+    }
+
+    /// Stop gating and let every parked thread go.
+    pub fn ungate_all(&self) {
+        let mut st = self.st.lock();
+        st.gate.clear();
+        st.pause.clear();
+        let parked: Vec<String> = st.parked.keys().cloned().collect();
+        for t in parked {
+            st.release.insert(t);
+        }
+        self.cv.notify_all();
+    }
+
+    pub fn is_parked(&self, thread: &str) -> bool {
+        self.st.lock().parked.contains_key(thread)
+    }
+
+    /// Let a parked thread run; wait until it has parked again, announced a condition variable
+    /// wait, `finished()` says so, or `timeout` passed. Returns false if it was not parked.
+    pub fn step(&self, thread: &str, timeout: Duration, finished: &dyn Fn() -> bool) -> bool {
+        let mut st = self.st.lock();
+        if !st.parked.contains_key(thread) {
+            return false;
+        }
+        let before = st.parks.get(thread).copied().unwrap_or(0);
+        st.release.insert(thread.to_string());
+        self.cv.notify_all();
+        let t0 = Instant::now();
+        loop {
+            let now = st.parks.get(thread).copied().unwrap_or(0);
+            if now > before || st.waiting.contains_key(thread) || finished() {
+                return true;
+            }
+            if t0.elapsed() > timeout {
+                return true;
+            }
+            self.cv.wait_for(&mut st, Duration::from_millis(2));
+        }
     }
 
     /// Park the calling thread at a driver-level point (between two API calls of the victim).
@@ -109,8 +160,10 @@ impl Controller for Ctl {
         let c = st.hits.entry((t.clone(), name.to_string())).or_insert(0);
         *c += 1;
         let n = *c;
-        let hit = matches!(st.pause.get(&t), Some((p, nth)) if p == name && *nth == n);
+        let hit = st.gate.contains(&t)
+            || matches!(st.pause.get(&t), Some((p, nth)) if p == name && *nth == n);
         if hit {
+            *st.parks.entry(t.clone()).or_insert(0) += 1;
             st.parked.insert(t.clone(), name.to_string());
             self.cv.notify_all();
             while !st.release.contains(&t) {
@@ -718,6 +771,180 @@ fn run_manual_rotate(sc: &Scenario, seed: u64, run_no: u64) -> SchedOutcome {
     }
 }
 
+/// Replay of one behaviour of the RainConc model (spec/RainConc_Gen.tla): the threads of the
+/// model (w1: batch of keys 1 and 2, w2: put 1, w3: put 2, r1: get 1, r2: snapshot + get 1, bg)
+/// park at every point where they do not hold the database mutex; for every entry of the
+/// schedule the named thread, if parked, runs to its next such point.
+pub fn run_tlc_schedule(schedule: &[String], tag: &str, seed: u64, run_no: u64) -> SchedOutcome {
+    let u = Arc::new(Universe::plain(6));
+    let sink = TraceSink::new(Arc::clone(&u));
+    let fs = SimFs::new(ROOT);
+    let ctl = Ctl::new();
+    raindb::verif::install(
+        ROOT,
+        Arc::new(SinkObserver {
+            sink: Arc::clone(&sink),
+            want_contents: false,
+            ctl: Some(ctl.clone() as Arc<dyn Controller>),
+            lazy_gets: Mutex::new(Default::default()),
+            bg_active: std::sync::atomic::AtomicBool::new(true),
+            mute: vec![
+                "GetDone",
+                "IterDrop",
+                "IterDropped",
+                "BgBegin",
+                "BgEnd",
+                "ObsoleteCollected",
+                "OutputOpened",
+                "FlushBuilt",
+            ],
+        }),
+    );
+    take_panics();
+    sink.emit_json(
+        "Reset",
+        json!({"run": run_no, "seed": seed, "nk": u.n(), "driver": "sched", "tag": tag}),
+    );
+    let opts = OptSet {
+        memtable: 400,
+        file: 600,
+        block: 64,
+        reuse: false,
+    };
+    let db = match DB::open(opts.to_options(ROOT, &fs)) {
+        Ok(db) => Arc::new(db),
+        Err(e) => {
+            sink.emit_json("Hang", json!({"what": format!("open failed {}", e)}));
+            return SchedOutcome {
+                lines: sink.take(),
+                parked: false,
+                status: "openfail".into(),
+            };
+        }
+    };
+    let env = Arc::new(Env {
+        db: Arc::clone(&db),
+        sink: Arc::clone(&sink),
+        u: Arc::clone(&u),
+        ctl: ctl.clone(),
+        next_vid: Mutex::new(0),
+    });
+    let mut status = "ok".to_string();
+    // every key has a value in a table file; keys 1 and 2 also in the active memtable, which
+    // is nearly full (the model's MemCap = 1: the next writes rotate it)
+    for k in 1..=6 {
+        env.put(k, 40);
+    }
+    let _ = db.verif_force_flush();
+    let _ = wait_quiescent(&db, Duration::from_secs(20));
+    env.put(1, 120);
+    env.put(2, 120);
+    let names = ["w1", "w2", "w3", "r1", "r2"];
+    ctl.gate(&["w1", "w2", "w3", "r1", "r2", "bg"]);
+    let mut rxs: Vec<(String, mpsc::Receiver<()>)> = vec![];
+    for name in names {
+        let e2 = Arc::clone(&env);
+        let c2 = ctl.clone();
+        rxs.push((
+            name.to_string(),
+            spawn_named(name, move || {
+                c2.manual_point("start");
+                match name {
+                    "w1" => {
+                        e2.batch(&[1, 2], 120);
+                    }
+                    "w2" => {
+                        e2.put(1, 120);
+                    }
+                    "w3" => {
+                        e2.put(2, 120);
+                    }
+                    "r1" => {
+                        e2.get(1);
+                    }
+                    _ => e2.snap_get(1, false),
+                }
+            }),
+        ));
+    }
+    for name in names {
+        ctl.wait_parked(name, Duration::from_secs(5));
+    }
+    let done: HashMap<String, std::sync::Arc<std::sync::atomic::AtomicBool>> = names
+        .iter()
+        .map(|n| (n.to_string(), Arc::new(std::sync::atomic::AtomicBool::new(false))))
+        .collect();
+    let mut finished_rx: Vec<String> = vec![];
+    let mut steps_taken = 0u64;
+    for who in schedule {
+        // collect completions
+        for (name, rx) in &rxs {
+            if !finished_rx.contains(name) && rx.try_recv().is_ok() {
+                finished_rx.push(name.clone());
+                done[name].store(true, std::sync::atomic::Ordering::SeqCst);
+            }
+        }
+        let flag = done.get(who).cloned();
+        let fin = move || {
+            flag.as_ref()
+                .map(|f| f.load(std::sync::atomic::Ordering::SeqCst))
+                .unwrap_or(false)
+        };
+        if ctl.step(who, Duration::from_millis(60), &fin) {
+            steps_taken += 1;
+        }
+    }
+    ctl.ungate_all();
+    for (name, rx) in rxs {
+        if finished_rx.contains(&name) {
+            continue;
+        }
+        if rx.recv_timeout(Duration::from_secs(20)).is_err() {
+            sink.emit_json("Hang", json!({"what": format!("thread {} after the schedule", name)}));
+            status = "hang".into();
+        }
+    }
+    if status == "ok" {
+        for k in 1..=2 {
+            env.get(k);
+        }
+        env.scan(false, false);
+        if wait_quiescent(&db, Duration::from_secs(20)).is_none() {
+            sink.emit_json("Hang", json!({"what": "background work does not settle"}));
+            status = "hang".into();
+        }
+    }
+    for p in peek_panics() {
+        sink.emit_json(
+            "Panic",
+            json!({"thread": p.thread, "msg": p.message, "loc": p.location}),
+        );
+        status = "panic".into();
+    }
+    take_panics();
+    drop(env);
+    if status == "ok" {
+        match Arc::try_unwrap(db) {
+            Ok(db) => {
+                let rx = spawn_named("closer", move || drop(db));
+                if rx.recv_timeout(Duration::from_secs(20)).is_err() {
+                    sink.emit_json("Hang", json!({"what": "close"}));
+                    status = "hang".into();
+                }
+            }
+            Err(db) => std::mem::forget(db),
+        }
+    } else {
+        std::mem::forget(db);
+    }
+    raindb::verif::clear(ROOT);
+    SchedOutcome {
+        lines: sink.take(),
+        parked: steps_taken > 0,
+        status,
+    }
+}
+
 pub fn run_scenario(sc: &Scenario, seed: u64, run_no: u64) -> SchedOutcome {
     if sc.script == "cold_open" {
         return run_cold_open(sc, seed, run_no);
@@ -962,6 +1189,58 @@ pub fn cmd(m: &HashMap<String, String>) -> i32 {
     let only: Option<String> = m.get("scenario").cloned();
     let mut results = vec![];
     let mut chunk = 0;
+    if let Some(file) = m.get("schedules") {
+        // one JSON array of thread names per line (behaviours of spec/RainConc_Gen.tla)
+        let text = std::fs::read_to_string(file).expect("schedules file");
+        let only_idx: Option<usize> = m.get("index").and_then(|x| x.parse().ok());
+        let mut lines = vec![];
+        for (idx, line) in text.lines().enumerate() {
+            if line.trim().is_empty() {
+                continue;
+            }
+            if let Some(o) = only_idx {
+                if o != idx {
+                    continue;
+                }
+            }
+            let schedule: Vec<String> = serde_json::from_str(line).expect("schedule line");
+            let tag = format!("tlc#{}", idx);
+            let o = run_tlc_schedule(&schedule, &tag, seed0, idx as u64 + 1);
+            let rpath = out.join(format!("replay_{}_{}.json", seed0, idx));
+            std::fs::write(
+                &rpath,
+                serde_json::to_string(
+                    &json!({"driver": "sched", "seed": seed0, "schedule": schedule, "scenario": tag}),
+                )
+                .unwrap(),
+            )
+            .unwrap();
+            results.push(json!({"seed": seed0, "tag": tag, "status": o.status, "parked": o.parked,
+                "events": o.lines.len(), "replay": rpath.to_string_lossy(),
+                "trace": out.join("trace_0000.ndjson").to_string_lossy(),
+                "panics": Vec::<String>::new()}));
+            let hang = o.status == "hang";
+            lines.extend(o.lines);
+            if hang {
+                lines.push(json!({"e": "End", "i": 0, "t": "main"}));
+                crate::trace::write_ndjson(&out.join("trace_0000.ndjson"), &lines).unwrap();
+                std::fs::write(
+                    out.join("results.json"),
+                    serde_json::to_string_pretty(&json!({"runs": results, "aborted": true})).unwrap(),
+                )
+                .unwrap();
+                return 3;
+            }
+        }
+        lines.push(json!({"e": "End", "i": 0, "t": "main"}));
+        crate::trace::write_ndjson(&out.join("trace_0000.ndjson"), &lines).unwrap();
+        std::fs::write(
+            out.join("results.json"),
+            serde_json::to_string_pretty(&json!({"runs": results, "aborted": false})).unwrap(),
+        )
+        .unwrap();
+        return 0;
+    }
     for seed in seed0..seed0 + runs {
         let mut rng = StdRng::seed_from_u64(seed);
         let scs = scenarios(&mut rng, quick);
